@@ -44,7 +44,7 @@ func FuzzSource(f *testing.F) {
 			return
 		}
 		src := string(data)
-		if excludedSource(sourceCase{Pieces: []piece{{T: src}}}) != "" || strings.Count(src, "a:") > 300 {
+		if harness.Known("C02-PARSER-DUP-LABEL") && len(labelRe.FindAllStringIndex(src, 101)) > 100 {
 			return
 		}
 		l, _ := runSourceText(src, 64)
